@@ -109,10 +109,13 @@ func VerifC01_SetCapacity() {
 	w := vNode("n")
 	vAssume(nodeInv(w.n, w.extra))
 	nc := vResQ("cap")
-	w.n.SetCapacity(nc)
+	old := vecOf(w.n.totalResource)
+	delta := w.n.SetCapacity(nc)
 	vAssert(nodeInv(w.n, w.extra), "N1 SetCapacity preserves the ledger invariant")
 	for i := 0; i < vNK(); i++ {
 		vAssert(rv(w.n.totalResource, i) == rv(nc, i), "N1 SetCapacity installs the new capacity")
+		// the partition total and with it the root queue maximum are maintained by adding this delta
+		vAssert(rv(delta, i) == rv(nc, i)-old[i], "N1 SetCapacity reports exactly new minus old capacity for every resource type, dropped types included (the root maximum is the sum of the node capacities)")
 	}
 	vReach("end")
 }
